@@ -662,11 +662,25 @@ def mentions_content_length(case):
 
 
 def closables(case):
-    ids = set()
+    """id -> does the object deliver body chunks when the framework takes it as the response body?
+    (a file always; an iterable iff its first non-empty item is a str or bytes chunk) for every
+    object of the program that has a close method"""
+    ids = {}
 
     def f(d):
-        if d.get('k') in ('file', 'iter') and d.get('close') and not d.get('list'):
-            ids.add(d['id'])
+        if d.get('k') == 'file' and d.get('close'):
+            ids[d['id']] = True
+        if d.get('k') == 'iter' and d.get('close') and not d.get('list'):
+            chunky = False
+            for it in d['items']:
+                if it['k'] != 'yield':
+                    break
+                o = it['o']
+                if o['k'] == 'falsy' or (o['k'] == 'str' and not o['s']) or (o['k'] == 'bytes' and not o['b']):
+                    continue
+                chunky = o['k'] in ('str', 'bytes')
+                break
+            ids[d['id']] = chunky
     walk(case, f)
     return ids
 
@@ -743,14 +757,15 @@ def oracle(case, obs):
             return 'several Content-Length headers'
         if cl and cl[0] != str(total):
             return 'framework-set Content-Length %s but %d body bytes returned' % (cl[0], total)
-    # close exactly once
+    # close: never twice; an object that produced output (items were taken from it and they are body
+    # chunks) exactly once, by the framework (suppressed body) or by the server
     touched = {e[1] for e in ev if e[0] in ('next', 'read')}
-    for oid in sorted(closables(case)):
+    for oid, chunky in sorted(closables(case).items()):
         n = sum(1 for e in ev if e[0] == 'close' and e[1] == oid)
         if n > 1:
             return 'object %d closed %d times' % (oid, n)
-        if oid in touched and n == 0:
-            return 'iterable %d produced items but was never closed' % oid
+        if oid in touched and chunky and n == 0 and not start[3]:
+            return 'iterable %d produced output but was never closed' % oid
     # hooks
     nb, na = len(case['before']), len(case['after'])
     hb = [e[1] for e in ev if e[0] == 'hookB']
@@ -994,7 +1009,7 @@ def gen(rng, n):
 
 def ret(o, **kw):
     d = dict(kind='req', method='GET', fw=False, json=False, path='plain', before=[], after=[],
-             routing=dict(k='ok', reg='GET', rhooks=[], h=dict(muts=[], res=dict(k='ret', o=o))), eh=[])
+             routing=dict(k='ok', rhooks=[], h=dict(muts=[], res=dict(k='ret', o=o))), eh=[])
     d.update(kw)
     return d
 
@@ -1204,21 +1219,11 @@ def shrink(case):
 # known findings
 # --------------------------------------------------------------------------
 
-def pred_abandoned_iterable(case, what, m):
-    return isinstance(what, str) and 'produced items but was never closed' in what
-
-
-def pred_lazy_encode(case, what, m):
-    return isinstance(what, str) and 'raised before the first body chunk' in what
-
-
 def pred_status_line_shape(case, what, m):
     return case.get('kind') == 'status' and isinstance(what, str) and 'not "NNN reason"' in what
 
 
-PREDICATES = {'abandoned_iterable_not_closed': pred_abandoned_iterable,
-              'lazy_encode_failure_escapes': pred_lazy_encode,
-              'status_line_shape': pred_status_line_shape}
+PREDICATES = {'status_line_shape': pred_status_line_shape}
 
 MANIFEST = dict(
     text='(filled in when the theorems are in place)',
